@@ -7,26 +7,36 @@ PROP = dict(
                    "lists with arbitrary integer Order values, for a model of SortOrderedComponents that mirrors its partition loop and is "
                    "parameterised by an ABSTRACT sort assumed only to return a sorted permutation (so Go's unstable sort.Slice is covered); "
                    "the runner / loader / post-processor loops are modelled with their early exits and proved to visit exactly the sorted "
-                   "sequence front to back (a prefix ending at the first failing participant). The model is tied to the code by direct "
+                   "sequence front to back (a prefix ending at the first failing participant); so is the GetEarlyBeanReference loop "
+                   "(the smart post-processors of one early-reference request, in sorted order, each once), and EVERY Initialize of a "
+                   "Configure after any sequence of SetLoaders / AddLoaders / Initialize calls. The model is tied to the code by direct "
                    "differential calls of the real SortOrderedComponents, by real application starts with logging loaders, post-processors "
-                   "and runners, and by regenerated syntactic facts (call sites, data flow into the loops, shape of the sorter, comparator, loops).",
+                   "and runners (also with the probe in a circular reference, the processors registered in an imposed order, logging the "
+                   "early-reference callbacks), by step sequences on one real Configure, and by regenerated syntactic facts (call sites, data flow into the loops, shape of the sorter, comparator, loops).",
         level_note="Assumed, not verified: Go's sort.Slice returns a permutation ordered by the comparator (stated as the hypothesis SortSpec; "
                    "checked on every run by the oracles on 0-40 element inputs including the >12 pdqsort paths). Registration order of "
                    "runners and post-processors comes from a sync.Map enumeration, so for them the unordered block's internal order is "
                    "not part of what is compared.",
         subs=[dict(sub="order", n_quick=5000, n_thorough=300000),
-              dict(sub="orderstart", driver="order", n_quick=300, n_thorough=10000)],
+              dict(sub="orderstart", driver="order", n_quick=500, n_thorough=12000)],
         thorough_seeds=1,
         rule="order: 0-40 participants of four Go types (Priority+Order, Order, neither, Priority-without-Order), class weights and key "
              "pool drawn per case (all of {min int64,-3..3,max int64} / ties only / extremes), 3/8 of the cases longer than 12; "
              "orderstart: real App.Run with 0-8 (1/5: 0-20) loaders, post-processors (1/3 InstantiationAware) and runners of all classes and "
              "one probe component, with injected stops (loader error / rejected config, processor error or nil answer before/after "
              "initialisation, runner error) only on participants whose position does not depend on tie order; a case is trivial when it "
-             "has at most one participant; distinct = distinct scenario lines",
+             "has at most one participant; 3/10 of the orderstart cases (`SC`) put the probe into a circular reference with a second "
+             "singleton, make 3/5 of the processors SmartInstantiationAware and impose the P section as registration order "
+             "(GetEarlyBeanReference log compared and checked against the contract per early-reference request); 2/10 (`Q`) drive one "
+             "Configure through SetLoaders / AddLoaders / Initialize sequences (half of them: Initialize, SetLoaders of the same size, "
+             "Initialize [, AddLoaders, Initialize]), contract checked on every Initialize against the loaders registered then; "
+             "distinct = distinct scenario lines",
         trusted_base=COMMON_TB + ["Go sort.Slice meets SortSpec (permutation, ordered by the comparator) — hypothesis of the theorems, exercised by the oracles",
                                   "Go interface type assertions as modelled by Part.ofIfaces (validated by the correspondence, incl. Priority-without-Order)"],
         assumptions=["participants' Order() is a pure function (same value on every call during one sort)",
                      "for runners and post-processors the registration order is the enumeration order of a sync.Map and is not compared; "
                      "loaders and direct calls compare the unordered block with identities",
+                     "GetEarlyBeanReference callbacks return the component they were given without error (an error there would make the "
+                     "other logs depend on which member of the cycle is created first); one early-reference request per `SC` start",
                      "user post-processors in the starts have no injection points (the known limitation about Priority-ordered processors created early does not interfere)"],
     )
